@@ -4,8 +4,8 @@
     (Exchange/Perms.v, Exchange/GovGuards.v) disagrees with the implementation; "prop:" = the
     implementation's own outcome breaks the documented rule. *)
 From Coq Require Import NArith List String Bool.
-From PV Require Export Exchange.Perms Exchange.GovGuards Corr.CorrBase.
-From PV Require Import Gen.GenExchangePerms Gen.GenGovEndpoints.
+From PV Require Export Exchange.Perms Exchange.GovGuards Exchange.GuardPaths Exchange.PermWorld Corr.CorrBase.
+From PV Require Import Gen.GenExchangePerms Gen.GenGovEndpoints Gen.GenHandlerPaths.
 Import ListNotations.
 Open Scope string_scope.
 Open Scope list_scope.
@@ -14,7 +14,29 @@ Open Scope list_scope.
     grants of the universe that are in the real store afterwards. *)
 Record manage_step := { ms_admin : N; ms_req : upd_req; ms_ok : bool; ms_after : list grant }.
 
+(** One step of a world history (Exchange/PermWorld.v): the operation, whether the request was
+    otherwise valid (so that the guard alone decides: always for manage / create / query), whether it
+    went through (query: the response said the proposal would pass), the grants of the universe read
+    back afterwards (for a call: from the throw-away branch it ran on), and whether the digest of
+    ALL stores differs from the one before the step (looked at for rejected steps and for queries,
+    which are run on the history's own context, NOT on a branch). *)
+Record world_step := { ws_op : wop; ws_valid : bool; ws_ok : bool; ws_after : list grant; ws_wrote : bool }.
+
 Inductive case :=
+| CWorld (auth : N) (w0 : world) (universe : list grant) (steps : list world_step)
+| CQuery (module endpoint : string) (ran wrote stranger_accepted : bool)
+    (* a Query method run on a context whose writes persist: digest of all stores before/after, and
+       (exchange) whether a stranger then got through a market endpoint *)
+| CAuthString (module request variant : string) (same_address obs : bool)
+    (* the request signed "by" a spelling variant of the authority string *)
+| CKeeperAuthority (module : string) (is_gov_account : bool)
+| CGovWrapped (module request wrapper : string) (by_authority obs wrote : bool)
+    (* a governance-only request carrying the authority's address, wrapped by a NON-authority into a
+       message that runs other messages later (a trigger's actions, an authz MsgExec); by_authority =
+       the control: the same wrapper built by the authority itself *)
+| CAuthUse (module endpoint kind : string) (obs wrote : bool)
+    (* endpoints without an Authority field that compare another field with the authority;
+       kind = stranger | authority | holder *)
 | CMatrix (ep : string) (auth : N) (st : store) (market caller : N) (obs : bool) (wrote : bool)
     (* endpoint request for [market] signed by [caller]; [st] = the grants read back from the
        real store before the call; wrote = the multistore differs after a REJECTED call *)
@@ -112,6 +134,69 @@ Fixpoint check_manage (i : N) (auth : N) (universe : list grant) (st : store) (s
       end
   end.
 
+(* ------------------------------------------------------------------ world histories *)
+
+Definition grant_market (g : grant) : N := let '(m, _, _) := g in m.
+
+Definition check_world_step (auth : N) (universe : list grant) (w : world) (s : world_step) : list string :=
+  let st := w_grants w in
+  let '(w', ok) := wstep auth w (ws_op s) in
+  tag (if ws_valid s then Bool.eqb ok (ws_ok s) else implb (ws_ok s) ok) "corr:world_step_outcome" ++
+  tag (store_agrees universe (w_grants w') (ws_after s)) "corr:world_grants_after" ++
+  match ws_op s with
+  | WCall ep m caller =>
+      (if ws_ok s then tag (req_holds_b (documented_requirement ep) auth st m caller)
+                           "prop:passed_without_documented_permission"
+       else tag (negb (ws_wrote s)) "prop:rejected_call_wrote_state") ++
+      tag (store_agrees universe st (ws_after s)) "prop:call_changed_grants"
+  | WManage admin r =>
+      (if ws_ok s then
+         tag (N.eqb admin auth || store_has st (u_market r) admin PPermissions)
+             "prop:permissions_changed_without_permission" ++
+         tag (forallb (fun g => let '(m, a, p) := g in
+                         names_grant r g || Bool.eqb (store_has st m a p) (store_has (ws_after s) m a p)) universe)
+             "prop:unnamed_grant_changed" ++
+         tag (forallb (fun g => let '(m, a, p) := g in
+                         negb (N.eqb m (u_market r)) ||
+                         (if grants r a p then store_has (ws_after s) m a p
+                          else if revokes r a p then negb (store_has (ws_after s) m a p) else true)) universe)
+             "prop:grant_or_revocation_not_in_effect"
+       else
+         (* (a request that fails inside UpdatePermissions may have written earlier items into its own
+            branch, which the runtime discards: only a request stopped by the guard must not write) *)
+         (if endpoint_allowed "MarketManagePermissions" auth st (u_market r) admin then []
+          else tag (negb (ws_wrote s)) "prop:rejected_call_wrote_state") ++
+         tag (store_agrees universe st (ws_after s)) "prop:rejected_request_changed_grants")
+  | WCreate caller c =>
+      (if ws_ok s then
+         tag (N.eqb caller auth) "prop:market_created_by_non_authority" ++
+         tag (forallb (fun g => let '(m, a, p) := g in
+                         if N.eqb m (c_market c) then Bool.eqb (store_has (ws_after s) m a p) (lists_grant c a p)
+                         else Bool.eqb (store_has (ws_after s) m a p) (store_has st m a p)) universe)
+             "prop:new_market_grants_differ_from_request"
+       else tag (negb (ws_wrote s)) "prop:rejected_call_wrote_state" ++
+            tag (store_agrees universe st (ws_after s)) "prop:rejected_request_changed_grants")
+  | WQuery name a c =>
+      tag (negb (ws_wrote s)) "prop:query_wrote_state" ++
+      tag (store_agrees universe st (ws_after s)) "prop:query_changed_grants"
+  end.
+
+Fixpoint check_world (i : N) (auth : N) (universe : list grant) (w : world) (steps : list world_step) : list string :=
+  match steps with
+  | [] => []
+  | s :: r =>
+      match check_world_step auth universe w s with
+      | [] => check_world (N.succ i) auth universe (fst (wstep auth w (ws_op s))) r
+      | e => map (fun t => (t ++ " @step " ++ N_to_string i)%string) e
+      end
+  end.
+
+Definition known_query_row (module endpoint : string) : bool :=
+  existsb (fun r => (qh_module r =? module) && (qh_endpoint r =? endpoint)) gen_query_handlers.
+
+Definition documented_use (module endpoint : string) : bool :=
+  existsb (fun d => (fst (fst d) =? module) && (snd (fst d) =? endpoint)) documented_authority_uses.
+
 Definition module_known (module : string) : bool :=
   existsb (fun r => gv_module r =? module) gen_gov_endpoints.
 
@@ -129,6 +214,28 @@ Definition row_rejects_all (module request : string) : bool :=
 
 Definition check (c : case) : list string :=
   match c with
+  | CWorld auth w0 universe steps => check_world 0 auth universe w0 steps
+  | CQuery module endpoint ran wrote stranger_accepted =>
+      (if existsb (fun r => qh_module r =? module) gen_query_handlers
+       then tag (known_query_row module endpoint) "corr:query_missing_from_generated_table" else []) ++
+      (if (module =? "exchange") && query_branches endpoint then tag (negb wrote) "corr:query_effect" else []) ++
+      tag (negb wrote) "prop:query_wrote_state" ++
+      tag (negb stranger_accepted) "prop:stranger_accepted_after_query"
+  | CAuthString module request variant same_address obs =>
+      (if same_address then
+         (if module =? "exchange" then tag obs "corr:authority_string_variant" else [])
+       else tag (negb obs) "prop:non_authority_string_accepted")
+  | CKeeperAuthority module is_gov => tag is_gov "corr:keeper_authority_is_not_the_gov_account"
+  | CGovWrapped module request wrapper by_authority obs wrote =>
+      if by_authority then []
+      else tag (negb obs) "prop:governance_message_accepted_from_non_authority_through_wrapper" ++
+           tag (negb wrote) "prop:rejected_call_wrote_state"
+  | CAuthUse module endpoint kind obs wrote =>
+      tag (documented_use module endpoint) "corr:not_a_documented_authority_use" ++
+      (if kind =? "stranger" then
+         tag (negb obs) "prop:stranger_accepted_on_restricted_endpoint" ++
+         tag (negb wrote) "prop:rejected_call_wrote_state"
+       else tag obs "corr:rightful_caller_rejected")
   | CMatrix ep auth st market caller obs wrote =>
       tag (Bool.eqb obs (endpoint_allowed ep auth st market caller)) "corr:endpoint_allowed" ++
       (if obs then tag (req_holds_b (documented_requirement ep) auth st market caller)
